@@ -142,7 +142,7 @@ def conds_path_delRule : List String := [
 
 def conds_path_alive : List String := [
    "func (*path) alive() bool",
-   "return len(p.methods) != 0 || len(p.variables) != 0 || len(p.segments) != 0"
+   "return p.methodAll != nil || len(p.methods) != 0 || len(p.variables) != 0 || len(p.segments) != 0"
   ]
 
 end Larking.Expected.C11
